@@ -1070,10 +1070,8 @@ func (d *Data) SplitSupervoxel(v dvid.VersionID, svlabel, splitlabel, remainlabe
 		d.restoreOldBlocks(ctx, numBlocks, origBlocks)
 		return
 	}
+	// addSupervoxelSplitToMapping also appends the split record to the mutation log.
 	if err = addSupervoxelSplitToMapping(d, v, op); err != nil {
-		return
-	}
-	if err = labels.LogSupervoxelSplit(d, v, op); err != nil {
 		return
 	}
 	// store the new split index
